@@ -1,3 +1,4 @@
+import Std.Data.HashSet
 import Nv.OracleIO
 import Nv.Model.C02
 import Nv.Gen.C02
@@ -22,7 +23,7 @@ structure Snap where
   table : List (Option ObjId)
   th : List Thread
   fault : Bool
-deriving DecidableEq
+deriving DecidableEq, Hashable
 
 structure Env where
   multi : Bool
@@ -71,28 +72,22 @@ def macroStep (e : Env) (s : State) (t : Tid) : Option State :=
   | .rel .. => some (runGroup e (.rel t) t (e.K + 2) s)
   | .acq .. => if asleepBehind s t then none else e.step s (.lock t)
 
-def insertNew (e : Env) (seen : List Snap) (s : State) : List Snap × Option State :=
-  let p := snap e s
-  if p ∈ seen then (seen, none) else (p :: seen, some (ofSnap p))
-
-/-- all quiescent states reachable from the frontier, exploring every order of the enabled macro steps -/
-def settleLoop (e : Env) : Nat → List State → List Snap → List Snap → List Snap
+/-- all quiescent states reachable from the frontier, exploring every order of the enabled macro steps
+(every state is expanded once: `seen` holds everything already put on the frontier) -/
+def settleLoop (e : Env) : Nat → List State → Std.HashSet Snap → List Snap → List Snap
   | 0, _, _, quiet => quiet
   | _, [], _, quiet => quiet
   | fuel + 1, s :: rest, seen, quiet =>
     let succs := (List.range e.N).filterMap (macroStep e s)
-    if succs.isEmpty then
-      let p := snap e s
-      settleLoop e fuel rest seen (if p ∈ quiet then quiet else p :: quiet)
+    if succs.isEmpty then settleLoop e fuel rest seen (snap e s :: quiet)
     else
-      let (seen', fresh) := succs.foldl (fun (acc : List Snap × List State) s' =>
-        match insertNew e acc.1 s' with
-        | (sn, some x) => (sn, x :: acc.2)
-        | (sn, none) => (sn, acc.2)) (seen, [])
+      let (seen', fresh) := succs.foldl (fun (acc : Std.HashSet Snap × List State) s' =>
+        let p := snap e s'
+        if acc.1.contains p then acc else (acc.1.insert p, ofSnap p :: acc.2)) (seen, [])
       settleLoop e fuel (fresh ++ rest) seen' quiet
 
 def settle (e : Env) (s : State) : List State :=
-  ((settleLoop e 100000 [s] [] []).reverse).map ofSnap
+  ((settleLoop e 1000000 [s] (Std.HashSet.emptyWithCapacity.insert (snap e s)) []).reverse).map ofSnap
 
 def statusVec (e : Env) (s : State) : String :=
   if s.fault then "fault" else
